@@ -221,6 +221,33 @@ fn main() {
         }
     }
 
+    // long denominators (more digits than the precision + guard digits) with exact-tie and exact quotients
+    if p <= 34 {
+        let dens: Vec<BigInt> = vec!["12345678901234567890123".parse().unwrap(), "1234567890123456789013004".parse().unwrap(), "9999999999999999999999999999999999999999".parse().unwrap(), "1000000000000000000000000000000000000000000000000000000000000001".parse().unwrap()];
+        let lo: BigInt = pow10(p); // 10^p .. : (p+1)-digit quotients
+        for den in dens.iter() {
+            let mut q: BigInt = lo.clone() + 5;
+            let step: BigInt = if p <= 2 { BigInt::from(10) } else { (pow10(p) * 9) / 97 / 10 * 10 };
+            let hi = pow10(p + 1);
+            while q < hi {
+                for (qq, label) in [(q.clone(), "tie"), (&q - 5, "exact"), (&q - 4, "just above"), (&q - 6, "just below")] {
+                    o.checks += 1;
+                    // b = den * 10^p, so the quotient q / 10^p is produced by the digit loop, not by the first division
+                    let (da, db) = (Dec { n: &qq * den, s: 2 }, Dec { n: den * pow10(p), s: 0 });
+                    match guard(|| &bd(&da) / &bd(&db)) {
+                        Ok(r) => {
+                            if let Err(e) = judge_div(&da, &db, &dec(&r), p) {
+                                o.bad("division (long denominator)", format!("{} / {} ({})", da.show(), db.show(), label), e, dec(&r).show());
+                            }
+                        }
+                        Err(e) => o.bad("division (long denominator)", format!("{} / {}", da.show(), db.show()), "a quotient".into(), e),
+                    }
+                }
+                q += &step;
+            }
+        }
+    }
+
     // 5. exp delivers the configured number of digits
     for x in [Dec::new(1, 0), Dec::new(-1, 0), Dec::new(5, 1), Dec::new(-5, 1), Dec::new(10, 0), Dec::new(1, 30), Dec::new(-3, 0)] {
         o.checks += 1;
